@@ -4,12 +4,15 @@
      C03_lengths            every derived length/count member equals the payload emitted for it;
      C03_encoder_in_bounds  encoding never reads outside the caller's containers, whatever stale
                             values the derived members hold.
-   NOT yet a theorem (named so the gap stays visible): C03_object_size_partial — that the
+     C03_object_size_default_partial  for the default-constructed object of each of the 106 regular classes (finite
+                            domain, swept in the kernel): objectSize left by write() = calculateObjectSize() >= 16
+                            and the bytes emitted are objectSize + objectSize mod 4 (object plus padding).
+   NOT yet a theorem for non-default states (named so the gap stays visible): C03_object_size_partial — that the
    objectSize/headerSize members equal the bytes emitted minus (objectSize mod 4) zero bytes of
    padding is currently decided by the correspondence run and the direct oracle on the
    implementation only (DESIGN.md section 4 C03). *)
 From VB Require Import Base IR Sem StreamFacts EvalFacts Roundtrip ClassRT.
-From VB Require Import Classes Consts Common CodecDefs Codec.
+From VB Require Import Classes Consts Common CodecDefs Codec StreamRT.
 Local Open Scope Z_scope.
 
 Theorem C03_consumes : forall c, In c object_classes -> ~ In c rt_exceptions ->
@@ -42,3 +45,25 @@ Print Assumptions C03_encoder_in_bounds.
 Example C03_nonvacuous :
   pre_M cs (pre_of (class_of_name "AppText")) <> [].
 Proof. vm_compute. discriminate. Qed.
+
+(* objectSize of default-constructed objects, all regular classes (finite sweep, lifted by forallb_minus) *)
+Definition default_size_ok (c : Z) : bool :=
+  match enc cs default_cap c (fresh cs c) with
+  | Ok (s', b) =>
+      match s' fid_objectSize, osize cs c s' with
+      | VInt v, Ok z => (v =? z) && (zlen b =? v + v mod 4) && (16 <=? v)
+      | _, _ => false
+      end
+  | Err _ => false
+  end.
+
+Lemma default_size_all : forallb default_size_ok (minus object_classes rt_exceptions) = true.
+Proof. vm_compute. reflexivity. Qed.
+
+Theorem C03_object_size_default_partial : forall c, In c object_classes -> ~ In c rt_exceptions ->
+  default_size_ok c = true.
+Proof. exact (forallb_minus default_size_ok _ _ default_size_all). Qed.
+Print Assumptions C03_object_size_default_partial.
+
+Example C03_default_sweep_nonvacuous : length (minus object_classes rt_exceptions) = 106%nat.
+Proof. vm_compute. reflexivity. Qed.
